@@ -48,10 +48,10 @@ def patched_close(self):
 ptm.FileProcessTensor.close = patched_close
 
 
-def build_export_pt():
+def build_export_pt(n=4):
     from mc import ancilla as A, refmodel as R
     from props import models as M
-    d, e, n = 2, 2, 4
+    d, e = 2, 2
     sigma = np.diag([0.7, 0.3]).astype(complex)
     ks = [[R.random_free_unitary(d * e, 80 + k)] for k in range(n)]
     return A.build_pt(d, e, sigma, ks, dt=0.2, basis_v=M.generic_unitary(2, 4), name="c17", description="export")
@@ -59,6 +59,11 @@ def build_export_pt():
 
 if mode == "export":
     build_export_pt().export(fname)
+elif mode == "export8":
+    build_export_pt(8).export(fname)
+elif mode == "export_over":
+    # the target already holds a complete (older) process tensor; it is replaced
+    build_export_pt().export(fname, overwrite=True)
 elif mode == "pttempo":
     from props import models as M
     bath = oq.Bath(0.5 * M.SX, M.ohmic(alpha=0.3, temperature=0.3))
